@@ -229,4 +229,59 @@
         let wide = format!("{}{{{{ 'abc", "x".repeat(70_000));
         let e = render_err(&wide);
         check_error_big(&e, &wide);
+        // errors that can strike at ANY instruction (running out of fuel): whichever instruction the budget runs dry on -
+        // plain text included - the error names the template and a line inside it, the line of a range is where the range
+        // starts, and N lines inserted above the whole template shift the line by exactly N
+        #[cfg(feature = "fuel")]
+        {
+            use crate::Environment;
+            let programs = [
+                "lead text\n{% for i in range(3) %}{{ i }}\n{% endfor %}\ntail text\nmore {{ 1 + 1 }}\nend",
+                "{{ 1 }}\n\n{% if true %}a\nb{% endif %}\n{% set x = 2 %}\ntext after set\n{{ x }}",
+                "only text\nsecond line",
+                "{% macro m(a) %}<{{ a }}>\n{% endmacro %}\nfirst\n{{ m(1) }}\nmiddle\n{{ m(2) }}\nlast",
+            ];
+            let mut fuel_cases = 0;
+            for prog in programs {
+                let nlines = prog.matches('\n').count() + 1;
+                let fail_line = |src: &str, budget: u64| -> Option<(usize, Option<std::ops::Range<usize>>)> {
+                    let mut env = Environment::new();
+                    env.set_fuel(Some(budget));
+                    env.add_template("fuel.txt", src).unwrap();
+                    match env.get_template("fuel.txt").unwrap().render(()) {
+                        Ok(_) => None,
+                        Err(e) => {
+                            let mut root: &crate::Error = &e;
+                            while let Some(next) = std::error::Error::source(root).and_then(|s| s.downcast_ref::<crate::Error>()) { root = next; }
+                            assert!(root.kind() == ErrorKind::OutOfFuel, "{src:?} budget {budget}: {e:?}");
+                            assert!(root.name() == Some("fuel.txt"), "{src:?} budget {budget}: out of fuel reported without / with a wrong template name: {:?}", root.name());
+                            let line = root.line().unwrap_or_else(|| panic!("{src:?} budget {budget}: out of fuel reported without a line"));
+                            if let Some(r) = root.range() {
+                                assert!(r.start <= r.end && r.end <= src.len() && src.is_char_boundary(r.start) && src.is_char_boundary(r.end), "{src:?} budget {budget}: range {r:?}");
+                                assert!(src[..r.start].matches('\n').count() + 1 == line, "{src:?} budget {budget}: line {line} is not the line the range {r:?} starts on");
+                            }
+                            let _ = format!("{e} {e:#} {e:?} {}", e.display_debug_info());
+                            Some((line, root.range()))
+                        }
+                    }
+                };
+                let mut budget = 0u64;
+                loop {
+                    let Some((line0, _)) = fail_line(prog, budget) else { break };
+                    assert!(line0 >= 1 && line0 <= nlines, "{prog:?} budget {budget}: line {line0} is outside the template ({nlines} lines)");
+                    for n in [1usize, 2, 7, 300] {
+                        // the lines are inserted inside a leading comment: blank lines in front of leading TEXT would become part
+                        // of that text token, whose line is - rightly - the line the token starts on
+                        let shifted = format!("{{#{}#}}{prog}", "\n".repeat(n));
+                        let (line_n, _) = fail_line(&shifted, budget).unwrap_or_else(|| panic!("{prog:?} budget {budget}: rendering succeeds once {n} lines are put above"));
+                        assert!(line_n == line0 + n, "{prog:?} budget {budget}: {n} lines inserted above move the reported line from {line0} to {line_n}");
+                    }
+                    fuel_cases += 1;
+                    budget += 1;
+                    assert!(budget < 500);
+                }
+                assert!(budget >= 1, "{prog:?}: no failing budget at all");
+            }
+            assert!(fuel_cases > 40, "{fuel_cases}");
+        }
     }
